@@ -791,6 +791,20 @@ def _case_length(run, P):
                     byp = [r_ for r_ in rets if r_.value is None or not any(
                         isinstance(y, ast.Call) and (dotted(y.func) or "").split(".")[-1]
                         == "make_identifier_from_name" for y in ast.walk(r_.value))]
+                    # a shortcut is no by-pass where the sanitiser would hand the name back as
+                    # it is: ASCII, an identifier, lower case, no leading underscore
+                    from .util import path_conditions as _pc
+                    p0 = tgt2.params[0]
+
+                    def harmless(r_):
+                        if dotted(r_.value) != p0:
+                            return False
+                        txt = " and ".join(t_ for t_, v_ in _pc(tgt2.node, r_) if v_) + " "
+                        neg = " ".join(t_ for t_, v_ in _pc(tgt2.node, r_) if not v_)
+                        return all(w_ in txt for w_ in (f"{p0}.isascii()", f"{p0}.isidentifier()",
+                                                         f"{p0}.islower()")) and (
+                            f"not {p0}.startswith('_')" in txt or f"{p0}.startswith('_')" in neg)
+                    byp = [r_ for r_ in byp if not harmless(r_)]
                     run.ob("C13.charset", tgt2, byp[0] if byp else tgt2.node, bool(rets) and not byp,
                            construct=f"{tgt2.name}: every result comes out of make_identifier_from_name"
                                      + (f" (not: {norm(byp[0], 40)})" if byp else ""),
